@@ -29,7 +29,7 @@ Theorem C08_chain_ok_sound :
 Proof. exact @chain_ok_resolve. Qed.
 Print Assumptions C08_chain_ok_sound.
 
-(* WHOLE RUNS (TokIR/BulkSim.v, html): exact_errors changes nothing but parse errors and the cutting of text into
+(* WHOLE RUNS (TokIR/BulkSim.v, one theory for both flavours; html here, xml below): exact_errors changes nothing but parse errors and the cutting of text into
    character tokens.  The chunked-queue interpreter - the one that runs against the Rust tokenizer - in the DEFAULT mode
    (exact_errors = false: bulk reads up to the end of the first buffer, SIMD scan of the data state with its own newline
    count, no current_char update, no bad-character errors) against the same interpreter with exact_errors = true (one
@@ -70,7 +70,7 @@ Print Assumptions C08_exact_errors_flat_unit_runs.
    character up to Error commands, or a body without bulk read; an arm reconsumes only after having read a character in
    the same step; EOF arms do not read *)
 Theorem C08_bulk_table_conditions :
-  (forall s, step_ok simd_first_guard simd_tail_stop simd_tail_newline hstate_beq (html_step s) = true) /\
+  (forall s, step_ok html_flavour simd_first_guard simd_tail_stop simd_tail_newline hstate_beq (html_step s) = true) /\
   (forall s, ok_body false false (html_eof s) = true).
 Proof. split; [exact html_step_ok_all|exact html_eof_lockstep_all]. Qed.
 Print Assumptions C08_bulk_table_conditions.
@@ -90,3 +90,40 @@ Example C08_bulk_obs_example :
      (TTag TEndTag [112] false [] false, 2, 42); (TEof, 2, 42)]%N.
 Proof. exact ex_bulk_obs. Qed.
 Print Assumptions C08_bulk_obs_example.
+
+(* xml5ever, WHOLE RUNS: the same theorem for the xml flavour on the regenerated xml table, for ANY value of the (unused)
+   SIMD sets: XmlTokenizer with exact_errors = false (bulk reads in Data and the three attribute-value states) against
+   exact_errors = true, chunked queue, all chunk lists, sink scripts (Script answers on end tags), injected text, fuel.
+   What differs between the flavours and is covered: NUL is turned into U+FFFD by get_preprocessed_char (and is in every
+   bulk set), lines are not counted there (so LF need not stop a run, and does not in Data), discard_char reads through
+   get_char, eat has its own pending-LF clause, EOF arms may emit tags and go on after a Script answer. *)
+Theorem C08_xml_exact_errors_changes_only_errors_and_text_cuts :
+  forall simd ent c1 sk fuel inject chunks (m : mach xstate queue) log,
+  let rf := drive_chunked xml_flavour false xml_table simd ent c1 sk fuel inject chunks m log in
+  regular (snd rf) ->
+  exists k, forall j,
+    let rs := drive_chunked xml_flavour true xml_table simd ent c1 sk (k + j) inject chunks m log in
+    snd rs = snd rf /\ obs (mout (fst rs)) = obs (mout (fst rf)) /\ ceq (mc (fst rs)) (mc (fst rf)) /\
+    mq (fst rs) = mq (fst rf) /\ mcons (fst rs) = mcons (fst rf).
+Proof. exact xml_bulk_chunked_obs. Qed.
+Print Assumptions C08_xml_exact_errors_changes_only_errors_and_text_cuts.
+
+Theorem C08_xml_bulk_table_conditions :
+  (forall guard stop nl s, step_ok xml_flavour guard stop nl xstate_beq (xml_step s) = true) /\
+  (forall s, ok_body false false (xml_eof s) = true).
+Proof. split; [exact xml_step_ok_all|exact xml_eof_lockstep_all]. Qed.
+Print Assumptions C08_xml_bulk_table_conditions.
+
+(* non-vacuity (a test, by computation): x LF y <a b='p NUL q&amp;r' c=QUOT s QUOT> t NUL u U+0001 v &lt; </a> - 8 entries
+   against 13 (one bad-character error on the slow path only), the same 5 observable tokens *)
+Example C08_xml_bulk_obs_example :
+  regular_b (snd xex_fast) = true /\ snd xex_fast = snd xex_ref /\
+  obs (mout (fst xex_fast)) = obs (mout (fst xex_ref)) /\
+  (length (mout (fst xex_fast)), length (mout (fst xex_ref)), length (obs (mout (fst xex_ref)))) = (8, 13, 5)%nat /\
+  (length (filter is_error (mout (fst xex_fast))), length (filter is_error (mout (fst xex_ref)))) = (0, 1)%nat /\
+  rev (obs (mout (fst xex_ref))) =
+    [(TChars [120; 10; 121], 1, 3);
+     (TTag TStartTag [97] false [([98], [112; 65533; 113; 38; 114]); ([99], [115])] false, 1, 26);
+     (TChars [116; 65533; 117; 1; 118; 60], 1, 35); (TTag TEndTag [97] false [] false, 1, 39); (TEof, 1, 39)]%N.
+Proof. exact xex_bulk_obs. Qed.
+Print Assumptions C08_xml_bulk_obs_example.
